@@ -141,4 +141,7 @@ theorem strict_run {s s' : LS} (as : List (Nat × Choice)) (hh : noHard as) (he 
       simp only [h1] at hr
       exact ih (fun b hb => hh b (List.mem_cons_of_mem _ hb)) (strict_step a (hh a List.mem_cons_self) he h1) hr
 
+theorem mem_of_countP_pos {p : Loc → Bool} {l : List Loc} (h : l.countP p > 0) : ∃ a ∈ l, p a = true :=
+  List.countP_pos_iff.mp h
+
 end Proof.C30
